@@ -78,12 +78,15 @@ def instances(tier, seed):
             continue
         for o in range(len(ORDERS)):
             g = "core" if (tier == "thorough" or rng.random() < 0.1) else "ext"
-            out.append((g, dict(kind="history", run1=[h, c, o], nruns=nruns if tier == "quick" else 3)))
+            out.append((g, dict(kind="history", run1=[h, c, o], nruns=2)))
+            if tier == "thorough" and rng.random() < 0.15:
+                # three runs: explored as far as the budget allows (about a million histories each)
+                out.append(("ext", dict(kind="history", run1=[h, c, o], nruns=3)))
     out.sort(key=lambda x: x[0] != "core")
     return out
 
 
-BOUNDS = dict(history="2 runs (thorough 3) over one cache directory; run 1 fixed per instance (8 hook sets x {typeguard, beartype, None, no hook} x 7 import orders); every later run: solver-branched choice of hook set, checker, import order and an optional source edit of one module",
+BOUNDS = dict(history="2 runs over one cache directory (thorough: 3 runs for a seeded subset, within the time budget); run 1 fixed per instance (8 hook sets x {typeguard, beartype, None, no hook} x 7 import orders); every later run: solver-branched choice of hook set, checker, import order and an optional source edit of one module",
               forest="wh (imports wp while being executed), wp, wq, wbad (imports wq, then raises ImportError), wsyn (does not compile)",
               tags="the three checker strings + None: pairwise distinct cache tags, distinct from CPython's")
 STUBS = ["a 'run' is simulated in-process: module table purged, hooks removed, importlib._bootstrap_external.cache_from_source reset to the pristine function (the state of a fresh interpreter); replays use real subprocesses"]
